@@ -185,6 +185,13 @@ pub fn check_cmp(n: i32, x: i128, o: i128) -> Result<(), String> {
         if !ops_agree(&od, &d, o.cmp(&dm)) || !ops_agree(&d, &od, dm.cmp(&o)) {
             return Err(format!("OracleDate({o}) vs Date({n}): mixed comparison disagrees with the instants"));
         }
+        // two Oracle-style dates order as the timestamps of their whole seconds (every operator, cmp,
+        // and the provided max / min / clamp / sort)
+        let o2 = x.div_euclid(US_PER_SEC) * US_PER_SEC;
+        let (od2, want) = (ad::ora(o2 as i64), o.cmp(&o2));
+        if !ops_agree(&od, &od2, want) || !ops_agree(&od2, &od, want.reverse()) || od.cmp(&od2) != want || !ord_provided_ok(od, od2, want) || ad::ts(o as i64).cmp(&ad::ts(o2 as i64)) != want {
+            return Err(format!("OracleDate({o}) vs OracleDate({o2}): ordering disagrees with the timestamps of their whole seconds"));
+        }
         Ok(())
     })
     .unwrap_or_else(|p| Err(p))
@@ -371,7 +378,7 @@ pub fn run(ctx: &Ctx) -> (Stats, Report) {
     st.section("mixed_comparison_pairs", &mut mark);
 
     let rep = Report {
-        rule: "Differential / metamorphic, no reference model: for every date and every critical whole-second time of day, each of the 12 trunc and 12 round units is applied through Timestamp and OracleDate (and through Date at midnight) and the results must denote the same instant or all be errors (also for every second of seven days before, at and after 1970); likewise last_day_of_month, +-16 month offsets, +-day-time intervals (Oracle result = timestamp result floored to the second), differences through all subtraction variants of the three types, and mixed-type ==, !=, <, <=, >, >=, partial_cmp in both argument orders against the comparison of the converted raw counts (structured neighbours +-1us/+-1s/+-1day/range ends/across 1970 for every date, plus boundary-pool x pool pairs). Non-trivial: every compared pair involves two independent code paths; distinct by enumeration / fingerprint.".into(),
+        rule: "Differential / metamorphic, no reference model: for every date and every critical whole-second time of day, each of the 12 trunc and 12 round units is applied through Timestamp and OracleDate (and through Date at midnight) and the results must denote the same instant or all be errors (also for every second of seven days before, at and after 1970); likewise last_day_of_month, +-16 month offsets, +-day-time intervals (Oracle result = timestamp result floored to the second), differences through all subtraction variants of the three types, and mixed-type ==, !=, <, <=, >, >=, partial_cmp in both argument orders against the comparison of the converted raw counts, plus OracleDate vs OracleDate (every operator, cmp, max / min / clamp / sort) (structured neighbours +-1us/+-1s/+-1day/range ends/across 1970 for every date, plus boundary-pool x pool pairs). Non-trivial: every compared pair involves two independent code paths; distinct by enumeration / fingerprint.".into(),
         assumptions: vec!["independent of the C10/C11 oracles: holds in the presence of known finding K1, which the three types share".into()],
         exhaustive: true,
         extra: Default::default(),
